@@ -3,6 +3,7 @@ package multidb
 import (
 	"errors"
 	"fmt"
+	"sort"
 	"strings"
 
 	"github.com/Fantom-foundation/lachesis-base/kvdb"
@@ -39,12 +40,17 @@ func NewProducer(producers map[TypeName]kvdb.FullDBProducer, routingTable map[st
 		}
 
 		routingFmt = append(routingFmt, scanfRoute{
+			req:    req,
 			Name:   fn,
 			Type:   route.Type,
 			Table:  route.Table,
 			NoDrop: route.NoDrop,
 		})
 	}
+	// deterministic order of pattern routes
+	sort.Slice(routingFmt, func(i, j int) bool {
+		return routingFmt[i].req < routingFmt[j].req
+	})
 	return &Producer{
 		usedProducers:   used,
 		allProducers:    producers,
